@@ -152,7 +152,7 @@ let concurrent_case joined served1 served2 =
     else [CWrite (s, m 1); CBegin (r1, s); CWrite (s, m 2); CEnd s; CBegin (r2, s); CEnd s] in
   let st = t_crun events in
   let served_of r =
-    match List.find_opt (fun (((r', _), _), _) -> r' = r) st.c_done with
+    match List.find_opt (fun (((((r', _), _), _), _), _) -> r' = r) st.c_done with
     | Some (((_, _), Some (id, _)), _) -> if coq_to_bytes id = "m1" then 1 else 2
     | _ -> 0 in
   let diff =
@@ -167,11 +167,30 @@ let concurrent_case joined served1 served2 =
   else "PROP a model-less request was not evaluated against the latest model of its store"
     ^ (match diff with Some t -> "; " ^ t | None -> "")
 
+(* two stores: A's lookup is held in flight while a model-less request for B arrives *)
+let concurrent2_case served1 served2 =
+  let sa = bytes_to_coq "storeA" and sb = bytes_to_coq "storeB" in
+  let ma = (bytes_to_coq "mA", dummy_body [n_of_int 1] 0) and mb = (bytes_to_coq "mB", dummy_body [n_of_int 2] 1) in
+  let r1 = n_of_int 1 and r2 = n_of_int 2 in
+  let st = t_crun [CWrite (sa, ma); CWrite (sb, mb); CBegin (r1, sa); CBegin (r2, sb); CEnd sb; CEnd sa] in
+  (* the model: which store was each request's lookup made for? *)
+  let own r =
+    match List.find_opt (fun (((((r', _), _), _), _), _) -> r' = r) st.c_done with
+    | Some (((((_, s_req), s_flight), _), _), _) -> if s_req = s_flight then 1 else 2
+    | None -> 0 in
+  let diff =
+    if own r1 = served1 && own r2 = served2 && t_all_own_store st then None
+    else Some (Printf.sprintf "model serves (own=%d, own=%d), impl (%d, %d) [1 = the store's own model, 2 = the other store's]" (own r1) (own r2) served1 served2) in
+  if served1 = 1 && served2 = 1 then (match diff with Some t -> "DIFF " ^ t | None -> "OK")
+  else "PROP cross-store: a model-less request was evaluated against another store's latest model (or failed) while that store's latest-model lookup was in flight"
+    ^ (match diff with Some t -> "; " ^ t | None -> "")
+
 let f _id vs =
   match vs with
   | [I "1"; backend; _combo; ops] -> server_case (as_int backend) (List.map parse_sop (as_list ops))
   | [I "0"; backend; _combo; ops] -> raw_case (as_int backend) (as_list ops)
   | [I "2"; _backend; _combo; joined; s1; s2] -> concurrent_case (as_bool joined) (as_int s1) (as_int s2)
+  | [I "3"; _backend; _combo; _done_before; s1; s2] -> concurrent2_case (as_int s1) (as_int s2)
   | _ -> "DIFF malformed-record"
 
 let () = run_oracle f
